@@ -45,7 +45,7 @@ static void entry(int property)
     havoc(h);
     int expect_token = w15_set_start_token(property ? PART_S_PROPERTY : part, property ? 0 : nx); /* total and history independent: c15_start_token */
     havoc(h);
-    __CPROVER_assume(g_parse_ret == 0 || g_parse_ret == 1 || g_parse_ret == 2);
+    { int pr; __CPROVER_assume(pr == 0 || pr == 1 || pr == 2); g_parse_ret = pr; } /* the grammar's verdict is arbitrary (globals are zero, not arbitrary: assign) */
     int r = property ? w15_parse_property(xpath) : w15_parse_xta(nx, part, xpath);
     __CPROVER_assert(g_parse_calls == 1, "c15.entry.the-grammar-is-entered-exactly-once");
     __CPROVER_assert(g_syntax == (property ? SYNTAX_PROPERTY : nx ? SYNTAX_NEW_GUIDING : SYNTAX_OLD_GUIDING), "c15.entry.syntax-mode-is-set-from-the-arguments");
@@ -54,15 +54,47 @@ static void entry(int property)
     __CPROVER_assert(g_line == 1 && g_offset == 0 && g_path == 1000 + xpath, "c15.entry.line-offset-path-are-reset");
     __CPROVER_assert(g_position == h.position + 1, "c15.entry.global-position-counter-continues-(history-dependent-by-design:-only-differences-are-observable)");
     __CPROVER_assert(r == (g_parse_ret ? -1 : 0), "c15.entry.result-is-the-grammar's-verdict");
+    if (g_parse_ret) __CPROVER_assert(0, "reach:grammar reports failure");
     REACH;
 }
 void h_c15_entry_xta(void) { entry(0); }
 void h_c15_entry_property(void) { entry(1); }
 
+/* the scanner's start condition: INITIAL at the entry of every parse, whatever the previous parses scanned (induction over
+   the sequence of calls: assume it is INITIAL before the call, show it is INITIAL when the grammar is entered and again
+   when the call returns - also when the input ended inside an unterminated comment) */
+extern int g_yy_start, g_yy_start_at_entry, g_scan_choice[3], g_yyerrors;
+static void start_condition(int property)
+{
+    int nx, part, xpath;
+    __CPROVER_assume(VALID_PART(part) && (nx == 0 || nx == 1) && xpath >= 0 && xpath < 60000);
+    struct hist h = any_history();
+    __CPROVER_assume(h.position < 0xffffffffu);
+    havoc(h);
+    g_yy_start = 0; /* induction hypothesis: INITIAL */
+    for (int i = 0; i < 3; i++) { int c; __CPROVER_assume(c >= 0 && c <= 2); g_scan_choice[i] = c; } /* globals are zero, not arbitrary: assign */
+    if (property) w15_parse_property(xpath); else w15_parse_xta(nx, part, xpath);
+    __CPROVER_assert(g_yy_start_at_entry == 0, "c15.lexer.the-scanner-is-in-its-INITIAL-condition-when-the-grammar-is-entered");
+    __CPROVER_assert(g_yy_start == 0, "c15.lexer.the-scanner-is-back-in-INITIAL-when-the-call-returns-(also-after-an-unterminated-comment)");
+}
+void h_c15_start_condition_xta(void)
+{
+    start_condition(0);
+    if (g_scan_choice[0] == 1 && g_scan_choice[1] == 0 && g_scan_choice[2] == 0) __CPROVER_assert(0, "reach:input ends inside a comment");
+    REACH;
+}
+void h_c15_start_condition_property(void)
+{
+    start_condition(1);
+    if (g_scan_choice[0] == 1 && g_scan_choice[1] == 0 && g_scan_choice[2] == 0) __CPROVER_assert(0, "reach:input ends inside a comment");
+    REACH;
+}
+
 void h_c15_lex(void)
 {
     struct hist h = any_history();
     havoc(h);
+    { int lr; g_lex_ret = lr; } /* what the scanner returns next is arbitrary */
     int a = w15_lex(), pending_after = w15_get(0), b = w15_lex();
     __CPROVER_assert(a == (h.tok ? h.tok : g_lex_ret), "c15.utap_lex.pending-start-token-is-delivered-first");
     __CPROVER_assert(pending_after == 0 && b == g_lex_ret, "c15.utap_lex.start-token-is-delivered-exactly-once");
